@@ -59,7 +59,16 @@ pub async fn config_load(args: &[&str]) -> String {
     if args.len() > 1 && args[1] == "probe" {
         let mut names: Vec<String> = state.connectors.keys().cloned().collect();
         names.sort();
+        // connectors the caller excludes from the probe (QUIC: an unreachable server is waited for, see C19)
+        let skip: Vec<String> = if args.len() > 2 && args[2] != "-" {
+            args[2].split(',').map(|h| String::from_utf8_lossy(&unhex(h)).to_string()).collect()
+        } else {
+            vec![]
+        };
         for n in names {
+            if skip.contains(&n) {
+                continue;
+            }
             let conn = state.connectors.get(&n).unwrap().clone();
             let ctx = state.contexts.create_context("probe".into(), "127.0.0.1:9".parse().unwrap()).await;
             ctx.write().await.set_target("127.0.0.1:1".parse().unwrap());
